@@ -142,6 +142,8 @@ class Harness:
             raise ValueError(entry)
         for stage in cfg.get('post', []):
             ds = self._stage(ds, stage)
+        if cfg.get('profile'):
+            ds = lazy_dataset.core.ProfilingDataset(ds)
         self.ds = ds
         self.rounds = []          # per consumer round: {'delivered': [...], 'exc': name|None}
 
@@ -193,11 +195,23 @@ class Harness:
                 rec['exc'] = type(e).__name__
                 rec['exc_args'] = repr(getattr(e, 'args', ()))[:80]
             it = None
+            if cfg.get('profile'):
+                rec['profile_counts'] = _profile_counts(self.ds)
             s.emit('returned', rnd)
             if rnd + 1 >= cfg.get('branch_rounds', 1):
                 # later rounds only probe state carried over between iterations (cached pools, caches): they
                 # run under the default schedule so that the search space is that of the explored rounds
                 s.branching = False
+
+
+def _profile_counts(node):
+    out = [list(node.hit_count)]
+    inner = node.input_dataset
+    for x in getattr(inner, 'input_datasets', ()):
+        out += _profile_counts(x)
+    if hasattr(inner, 'input_dataset'):
+        out += _profile_counts(inner.input_dataset)
+    return out
 
 
 def _val(x):
